@@ -676,6 +676,9 @@ class FnTypes:
     # ------------------------------------------------------------- narrowing
     def class_spec(self, e: ast.expr, env) -> Optional[List[str]]:
         """isinstance() second argument -> list of class names, None if unknown"""
+        if isinstance(e, ast.Call) and isinstance(e.func, ast.Name) and e.func.id == "type" and len(e.args) == 1 and not e.keywords \
+                and isinstance(e.args[0], ast.Constant) and e.args[0].value is None:
+            return ["NoneType"]
         if isinstance(e, ast.Tuple):
             out = []
             for x in e.elts:
